@@ -44,6 +44,10 @@ def generate(rng, tier):
     df = prod / dt
     if big:
         shape = rng.choice([(64, 256), (32, 1024), (128, 128)] + ([(64, 1024)] if tier == "thorough" else []))
+        if rng.random() < (0.16 if tier == "quick" else 0.3):
+            # SCALE: survey-sized frames of more than 2**20 pixels whose row and column counts are not powers of two
+            # (block-wise or chunked fast paths that only engage beyond some size, and their remainder handling)
+            shape = rng.choice([(20, 65536), (6, 262144), (16, 100000), (301, 4096), (17, 131072), (33, 40000), (611, 4096)])
     else:
         shape = (rng.choice([1, 2, 4, 8]), rng.choice([4, 8, 16, 32]))
     route = rng.choice(["sizes", "sizes", "sizes", "data", "load_fil"]) if not big else "sizes"
